@@ -126,6 +126,8 @@ func installHooks() {
 		verifFlushAdmittedHook.Store(&f4)
 		f5 := h4Yield
 		verifYieldHook.Store(&f5)
+		f6 := h5BatchConn
+		verifBatchConnHook.Store(&f6)
 		simHooksOnce.Store(true)
 	})
 }
